@@ -687,3 +687,9 @@ for _o in ("C11.alloc.unmap-own", "C11.alloc.unmap-len", "C11.alloc.inv.given-ba
     VERUS["alloc_linux_x86_64"]["shared"][_o] = sorted(set(VERUS["alloc_linux_x86_64"]["shared"].get(_o, [])) | {"C14"})
 HARNESSES["c11_alloc_twin"]["props"] = sorted(set(HARNESSES["c11_alloc_twin"]["props"]) | {"C14"})
 HARNESSES["c11_alloc_twin"]["shared"] = {"C11.twin.frame": ["C12", "C03", "C14"]}
+
+# C05 ("an installation that cannot obtain memory is a panic with nothing left behind, never a hang"): the
+# allocator's termination and clean-failure obligations decide C05 too
+VERUS["alloc_linux_x86_64"]["props"] = sorted(set(VERUS["alloc_linux_x86_64"]["props"]) | {"C05"})
+for _o in ("C11.alloc.terminates", "C11.alloc.clean-failure", "C11.alloc.inv.given-back"):
+    VERUS["alloc_linux_x86_64"]["shared"][_o] = sorted(set(VERUS["alloc_linux_x86_64"]["shared"].get(_o, [])) | {"C05"})
